@@ -535,6 +535,7 @@ namespace {
             if (k % 3 == 1) continue;            // two statements out of three carry a location
             auto st = const_cast<ipr::Stmt*>(a.order[k]);
             long file = 2 + static_cast<long>(k), ln = 10 + 3 * static_cast<long>(k), col = (k % 4 == 0) ? 0 : 5 + static_cast<long>(k);
+            if (k % 5 == 2) { ln = 0; col = 0; }            // a location that names a file only (what a front end gives built-in entities)
             ipr::Source_location loc;
             loc.file = ipr::File_index{static_cast<std::uint32_t>(file)};
             loc.line = ipr::Line_number{static_cast<std::uint32_t>(ln)};
